@@ -191,7 +191,10 @@ func (s *State) catFacts(r, a, b string) {
 			eq(app("lstl", r), ite(eq(app("nl", b), "0"), app("+", app("lstl", a), app("vlen", b)), app("lstl", b))),
 			eq(app("mxl", r), app("max2", app("max2", app("mxl", a), app("mxl", b)), app("+", app("lstl", a), app("fstl", b)))),
 			eq(app("mmin", r), ite(eq(app("nl", a), "0"), app("mmin", b), ite(eq(app("nl", b), "0"), app("mmin", a),
-				app("min2", app("min2", app("mmin", a), app("mmin", b)), app("+", app("lstl", a), app("fstl", b)))))))))
+				app("min2", app("min2", app("mmin", a), app("mmin", b)), app("+", app("lstl", a), app("fstl", b)))))),
+			// empty lines: the last line of a and the first line of b merge into one
+			eq(app("nel", r), app("+", app("-", app("-", app("+", app("nel", a), app("nel", b)), ite(eq(app("lstl", a), "0"), "1", "0")), ite(eq(app("fstl", b), "0"), "1", "0")),
+				ite(eq(app("+", app("lstl", a), app("fstl", b)), "0"), "1", "0"))))))
 	}
 	if s.c.strOrder {
 		s.declOrder()
@@ -238,6 +241,7 @@ func (s *State) strBasics(a string) {
 		s.assume(and(app("<=", "0", app("fstl", a)), app("<=", app("fstl", a), app("mxl", a)), app("<=", "0", app("lstl", a)), app("<=", app("lstl", a), app("mxl", a)), app("<=", app("mxl", a), app("vlen", a))))
 		s.assume(implies(eq(app("nl", a), "0"), and(eq(app("fstl", a), app("vlen", a)), eq(app("lstl", a), app("vlen", a)), eq(app("mxl", a), app("vlen", a)))))
 		s.assume(and(app("<=", "0", app("mmin", a)), implies(app("<=", app("nl", a), "1"), eq(app("mmin", a), "9223372036854775808"))))
+		s.assume(and(app("<=", "0", app("nel", a)), app("<=", app("nel", a), app("+", app("nl", a), "1")), implies(eq(app("nl", a), "0"), eq(app("nel", a), ite(eq(app("vlen", a), "0"), "1", "0")))))
 	}
 }
 
